@@ -62,6 +62,30 @@ def fuzz_command(rnd):
     return cmd
 
 
+def degenerate_arc(rnd):
+    """A positioning move and an arc whose end point lies on (or within 1e-15 .. 1e-9 of) the ray centre -> start, or on the start
+    point itself: angular travel of exactly or almost 0 / a full turn."""
+    sx, sy = rnd.randint(-20, 40), rnd.randint(-20, 40)
+    r = rnd.choice([1, 5, 10, 2.5])
+    axis = rnd.choice(["x", "y"])
+    eps = rnd.choice(["0", "0.000000000000001", "-0.000000000000001", "0.000000001", "-0.000000001", "0.0000000000000001"])
+    k = rnd.choice([0, 1, 2, 0.5])       # end = centre + k*r along the ray (k=1: the start point itself)
+    if axis == "x":
+        cx, i, j = sx - r, -r, 0
+        ex = fmt(cx + k * r, 4)
+    else:
+        cy, i, j = sy - r, 0, -r
+        ey = fmt(cy + k * r, 4)
+    # the tiny offset is applied to the coordinate across the ray, relative to a start at 0 on that axis
+    if axis == "x":
+        pre = "G1 X%s Y0" % fmt(sx, 4)
+        arc = "%s X%s Y%s I%s J0" % (rnd.choice(["G2", "G3"]), ex, eps, fmt(i, 4))
+    else:
+        pre = "G1 X0 Y%s" % fmt(sy, 4)
+        arc = "%s X%s Y%s I0 J%s" % (rnd.choice(["G2", "G3"]), eps, ey, fmt(j, 4))
+    return [pre, arc]
+
+
 def wrap_line(rnd, cmd, k):
     """A file line around a command: line number, checksum, comment, blanks, EOL."""
     s = cmd
@@ -109,7 +133,12 @@ class C09(Monitor):
             regs, g = gen_program(rnd, feats, settings, nsteps=rnd.randint(20, 90))
             return dict(entry="structured", settings=settings, regions=regs, cmds=None, lines=None, steps=g.steps)
         n = rnd.randint(10, 80 if tier == "quick" else 300)
-        cmds = ["G28"] + [fuzz_command(rnd) for _ in range(n)]
+        cmds = ["G28"]
+        for _ in range(n):
+            if rnd.random() < 0.06:
+                cmds += (["G90"] if rnd.random() < 0.7 else []) + degenerate_arc(rnd)
+            else:
+                cmds.append(fuzz_command(rnd))
         regs = gen_regions(rnd, rnd.choice([0, 1, 2, 3]))
         if rnd.random() < 0.3:
             regs.append(["rect", -100.0, -100.0, 100.0, 100.0, "big"])     # most moves are excluded
